@@ -430,13 +430,13 @@ fn case_raw(kv: &Kv) -> String {
     let stack = kv["stack"];
     let via = kv.get("via").copied().unwrap_or("dispatch");
     assert!(dl.is_none() || !via.ends_with("_nodl"));
-    // index spaces far from zero: the same diff through lookups whose offsets are 2^32 - 3 and 2^40 larger must
+    // index spaces far from zero: the same diff through lookups whose offsets are 2^32 - 3, 2^40 and 2^63 - 2 larger must
     // report the same calls shifted (positions beyond u32, straddling 2^32)
     let mut bigoff_same: Option<bool> = None;
     if let Some((ko, kn)) = s.off {
         if fail.is_none() && dl.is_none() && stack == "none" {
             let mut same = true;
-            for big in [(1usize << 32) - 3, 1usize << 40] {
+            for big in [(1usize << 32) - 3, 1usize << 40, (1usize << 63) - 2] {
                 let old = &Off { off: ko + big, v: s.old.clone() };
                 let new = &Off { off: kn + big, v: s.new.clone() };
                 let (log2, r2) = with_stack!(stack, fail, old, new, |d| call_entry!(
